@@ -12,8 +12,9 @@ use txtpp::{Config, Mode, Verbosity};
 pub const VANISH_QUICK: [&str; 3] = ["command-exit-3", "missing-include", "write-limit-on-output"];
 pub const FILES: [&str; 5] = ["a", "b", "c", "d", "e"];
 pub const POS: [(&str, usize); 5] = [("root", 0), ("middle", 1), ("leaf", 2), ("sibling", 3), ("sibling-with-empty-output", 4)];
-pub const KINDS: [&str; 15] = [
+pub const KINDS: [&str; 16] = [
     "temp-target-is-a-directory",
+    "include-invalid-utf8",
     "command-killed-by-signal",
     "write-limit-on-output", "write-limit-on-temp",
     "tag-misuse", "command-exit-3", "missing-include", "include-a-directory", "source-invalid-utf8", "output-path-is-a-directory", "output-is-dev-full",
@@ -109,6 +110,10 @@ pub fn faulty_tree(kind: &str, pos: usize, mode: &Mode) -> Option<Tree> {
         "command-killed-by-signal" => append(&mut t, b"-TXTPP#run printf partial; kill -9 $$\n"),
         "missing-include" => append(&mut t, b"TXTPP#include nonexistent.txt\n"),
         "include-a-directory" => append(&mut t, b"TXTPP#include adir\n"),
+        "include-invalid-utf8" => {
+            tfile(&mut t, "latin1.dat", &b"caf\xe9 \xff\xfe\n"[..]);
+            append(&mut t, b"TXTPP#include latin1.dat\n");
+        }
         "source-invalid-utf8" => append(&mut t, b"\xff\n"),
         "output-path-is-a-directory" => {
             t.remove(&outp);
@@ -361,7 +366,7 @@ pub fn run_c04(tier: &str) -> i32 {
     let rep = Report::new("C04", tier);
     let thorough = rep.thorough();
     rep.set("fault_kinds", json!(KINDS));
-    rep.set("bounds", json!("project a->b->c plus unrelated d; 15 fault kinds (incl. RLIMIT_FSIZE hit by one file's output / temp target, in-process) x 4 positions x the modes in which the kind is a fault x input selections {., root only, all by name} x ALL task completion orders; RLIMIT_FSIZE = every byte count from 0 to the largest generated file + 1 on the production binary (-j1, -j4; build and --needed)"));
+    rep.set("bounds", json!("project a->b->c plus unrelated d; 16 fault kinds (incl. RLIMIT_FSIZE hit by one file's output / temp target, in-process) x 4 positions x the modes in which the kind is a fault x input selections {., root only, all by name} x ALL task completion orders; RLIMIT_FSIZE = every byte count from 0 to the largest generated file + 1 on the production binary (-j1, -j4; build and --needed)"));
     rep.assume("faults are real OS-level faults (no injection hook); permission faults cannot be produced as root; /dev/full is used as an output only in Build mode");
     let mut jobs = vec![];
     let sels: Vec<Vec<&str>> = if thorough { vec![vec!["."], vec!["a.txt", "d.txt", "e.txt"], vec!["e.txt", "d.txt", "c.txt", "b.txt", "a.txt"]] } else { vec![vec!["."], vec!["a.txt", "d.txt", "e.txt"]] };
